@@ -230,7 +230,10 @@ def plan(tier, seed, with_dup=False):
 
     def with_kbd(p, prob):
         """some programs: the faulty hook invocations raise KeyboardInterrupt (the run is interrupted while a hook runs)"""
-        if rnd.random() < prob and not p.get("skips"):
+        # (not with steps that call scenario.skip(): the status skip() caches survives when the interrupt skips the end of
+        #  Scenario.run -- observed with seed 3, not modelled, like the observer hooks; see DESIGN 11.2)
+        skipping = any(st["o"] in ("skip", "skip_fail") or st["o2"] in ("skip", "skip_fail") for e in G.flatten(p)["elems"] for st in e["steps"])
+        if rnd.random() < prob and not p.get("skips") and not skipping:
             p["kbdhooks"] = True
         return p
 
@@ -467,7 +470,7 @@ def shared(chk, part="core"):
     """Run (or load) the shared stage for this tree / tier / seed.  Returns a dict:
        n_runs, tlc: [{module,cfg,distinct,generated,wall,coverage}], verdicts: {clause: [ {key, ...} ]},
        divergences, samples, design_violations"""
-    key = tree_key({"tier": chk.tier, "seed": chk.seed, "part": part, "v": 44})
+    key = tree_key({"tier": chk.tier, "seed": chk.seed, "part": part, "v": 45})
     os.makedirs(CACHE, exist_ok=True)
     # one entry per (part, tier, repository location): runs against a mutated copy must not evict /repo's entry
     prefix = "%s-%s-%s-" % (part, chk.tier, hashlib.sha256(REPO.encode()).hexdigest()[:8])
